@@ -87,6 +87,24 @@ def build_c06(rng, g, a, b):
     for op in OPS:
         cs['er' + op] = g.add('er' + op, 64, op, a, empty)
         cs['el' + op] = g.add('el' + op, 64, op, empty, a)
+    # bounding boxes disjoint (B moved to one of the four sides, rings rewritten so that the sweep would not hand them back
+    # as given) and merely touching (B moved until the boxes share a boundary line)
+    x0, y0, x1, y1 = bbox_of(a)
+    u0, v0, u1, v1 = bbox_of(b)
+    side = rng.choice(['left', 'right', 'above', 'below'])
+    gap = float(rng.randrange(1, 4))
+    dx, dy = {'left': (x0 - u1 - gap, 0.0), 'right': (x1 - u0 + gap, 0.0), 'above': (0.0, y1 - v0 + gap),
+              'below': (0.0, y0 - v1 - gap)}[side]
+    tx, ty = {'left': (x0 - u1, 0.0), 'right': (x1 - u0, 0.0), 'above': (0.0, y1 - v0), 'below': (0.0, y0 - v1)}[side]
+    movable = all(float(v) == int(v) and abs(v) < 2 ** 40 for v in (x0, y0, x1, y1, u0, v0, u1, v1)) and fmt.polys_of(a) and fmt.polys_of(b)
+    if movable:
+        ar = rewrite_operand(rng, a)
+        bd = rewrite_operand(rng, map_operand(b, lambda x, y: (x + dx, y + dy)))
+        bt = map_operand(b, lambda x, y: (x + tx, y + ty))
+        for op in OPS:
+            cs['dj' + op] = g.add('dj' + op, 64, op, ar, bd)
+            cs['dk' + op] = g.add('dk' + op, 64, op, bd, ar)
+            cs['tc' + op] = g.add('tc' + op, 64, op, a, bt)
 
     def items(res, exact):
         its, direct = [], []
@@ -120,6 +138,23 @@ def build_c06(rng, g, a, b):
             want = pa if op in 'UX' else []
             if [list(map(tuple, [tuple(x) for x in rg])) for p in r for rg in p] != [list(map(tuple, [tuple(x) for x in rg])) for p in closed(want) for rg in p]:
                 direct.append('%s(empty, A) is not %s' % (op, 'A' if op in 'UX' else 'empty'))
+        if movable:
+            flat = lambda mp: [[tuple(x) for x in rg] for p in mp for rg in p]  # noqa: E731
+            par, pbd = closed(fmt.polys_of(ar)), closed(fmt.polys_of(bd))
+            for op in OPS:
+                # disjoint boxes: "the obvious combinations of the inputs", as given
+                want = {'I': [], 'U': par + pbd, 'X': par + pbd, 'D': par}[op]
+                if flat(res[cs['dj' + op].cid][1]) != flat(want):
+                    direct.append('%s(A, B) with B\'s box strictly %s of A\'s is not the obvious combination of the inputs' % (op, side))
+                want = {'I': [], 'U': pbd + par, 'X': pbd + par, 'D': pbd}[op]
+                if flat(res[cs['dk' + op].cid][1]) != flat(want):
+                    direct.append('%s(B, A) with B\'s box strictly %s of A\'s is not the obvious combination of the inputs' % (op, side))
+                # touching boxes: the region law (goes through the sweep)
+                rt = res[cs['tc' + op].cid][1]
+                ext = exact.get(cs['tc' + op].cid)
+                its.append(relcheck.Item('%s_t%s' % (g.gid, op), [aa, ('E', fmt.rings_of_operand(bt)), ('Y', rt)],
+                                         Eq(In(2), Op(op, In(0), In(1))), 64, inp + fmt.rings_of_operand(bt), not ext,
+                                         'touching bounding boxes (%s), %s' % (side, op), [cs['tc' + op]]))
         return its, direct
     g.items = items
 
@@ -156,6 +191,10 @@ def rewrite_operand(rng, o):
                 r = r[:j] + [r[j]] * rng.randrange(1, 3) + r[j:]
             if rng.random() < 0.5:
                 r = r + [r[0]]
+                if rng.random() < 0.35:
+                    r = r + [r[0]] * rng.randrange(1, 3)      # the closing point repeated: [a, b, c, a, a]
+            if rng.random() < 0.2:
+                r = [r[0]] * rng.randrange(1, 3) + r           # the first point repeated: [a, a, b, c]
             p[i] = r
         if len(p) > 2:
             hs = p[1:]
@@ -303,8 +342,11 @@ def build_c09(rng, g, a, b):
             its.append(relcheck.Item('%s_f%s' % (g.gid, op), [('Y', base), ('Y', withfar), ('E', far)], law, 64, inp, not ex,
                                      'far part %s on the %s, %s' % (d, side, op), [cs[op], cs[op + 'f']]))
             if ex:
-                want = fmt.canon_mp(base + (closed([far]) if present else []))
-                if fmt.canon_mp(withfar) != want:
+                # rings modulo start / direction / repeated vertices: rings handed back by the bounding-box shortcut keep
+                # their given direction (C04), rings assembled by the sweep are re-oriented
+                nm = lambda mp: sorted((norm_ring(p[0]), tuple(sorted(norm_ring(h) for h in p[1:]))) for p in mp if p)  # noqa: E731
+                want = nm(base + (closed([far]) if present else []))
+                if nm(withfar) != want:
                     direct.append('%s: result with the far part (%s, %s) is not the base result %s the part itself'
                                   % (op, d, side, 'plus' if present else 'without'))
         return its, direct
@@ -354,7 +396,11 @@ def build_c11_stage2(rng, g, res):
         if first[o1][0] != 'ok':
             continue
         r1 = ('M', first[o1][1])
-        for tname in (['C', rng.choice('AB')] if g.meta.get('tier') == 'quick' else 'CAB'):
+        # a re-used operand only on exact-arithmetic families (C11: "for floating-point operands only with an independent
+        # third operand" - the vertices of a rounded first result lie within rounding distance of the edges of A and B)
+        reuse = g.family in gen.EXACT_FAMILIES + ('share',)
+        names = (['C', rng.choice('AB')] if g.meta.get('tier') == 'quick' else 'CAB') if reuse else ['C']
+        for tname in names:
             t = third[tname]
             cs[(o1, o2, tname, 'l')] = g.add('2%s%s%sl' % (o1, o2, tname), 64, o2, r1, t)
             cs[(o1, o2, tname, 'r')] = g.add('2%s%s%sr' % (o1, o2, tname), 64, o2, t, r1)
